@@ -203,6 +203,9 @@ func (pkg *pkg) Add(call *call) (string, error) {
 		if !strings.HasPrefix(call.Name, p.GetPrefix()) {
 			continue
 		}
+		if tp := call.TypeParam(); tp != nil {
+			return "", fmt.Errorf("Add Error: %s: %s has an argument whose type contains the type parameter %s, generated functions are not generic", p.Name(), call.Name, tp)
+		}
 		generator := pkg.generators[p.Name()]
 		name, err := generator.Add(call.Name, call.Args)
 		if err != nil {
